@@ -164,7 +164,7 @@ DecFC(j) ==
            bb == DecBBox(GetOr(j, "bbox", Null))
            fsj == GetOr(j, "features", Null) IN
        IF tyj[1] \notin {"s", "null"} \/ fsj[1] \notin {"a", "null"} THEN E
-       ELSE LET rs == IF fsj[1] = "null" THEN <<>> ELSE [i \in DOMAIN fsj[2] |-> IF fsj[2][i][1] = "null" THEN V("nilfeature") ELSE DecFeature(fsj[2][i])] IN
+       ELSE LET rs == IF fsj[1] = "null" THEN <<>> ELSE [i \in DOMAIN fsj[2] |-> IF fsj[2][i][1] = "null" THEN V([nil |-> TRUE]) ELSE DecFeature(fsj[2][i])] IN
             IF ~AllOk(rs) \/ ~bb.ok THEN E
             ELSE IF ~(tyj[1] = "s" /\ tyj[2] = "FeatureCollection") THEN E
             ELSE V([bbox |-> bb.v, features |-> Vals(rs)])
